@@ -170,6 +170,8 @@ impl<W, R, T> Runtime<W, R, T> {
             let size = value.byte_size();
             let mut stats = self.stats.borrow_mut();
             stats.size += size;
+            #[cfg(feature = "verif")]
+            verif_trace::record_alloc(usize::from(stats.size));
             if VERBOSE_ALLOC {
                 println!(
                     "Allocated {size} bytes (total {}) for {value:?}",
@@ -187,9 +189,65 @@ impl<W, R, T> Runtime<W, R, T> {
     }
 
     pub(crate) fn deallocate(&self, size: AllocatedMemory) {
+        #[cfg(feature = "verif")]
+        verif_trace::record_dealloc(usize::from(size));
         if !size.is_zero() {
             self.stats.borrow_mut().size -= size
         }
+    }
+}
+
+#[cfg(feature = "verif")]
+impl<W, R, T> Runtime<W, R, T> {
+    /// read-only accessor for the accounted byte total (zero unless a size limit is set)
+    pub fn verif_accounted_bytes(&self) -> usize {
+        usize::from(self.stats.borrow().size)
+    }
+
+    /// read-only accessor for the user-call counter (zero unless a call limit is set)
+    pub fn verif_ud_calls(&self) -> usize {
+        self.stats.borrow().ud_calls
+    }
+
+    /// whether the random source has been created
+    pub fn verif_rng_created(&self) -> bool {
+        self.stats.borrow().rng.is_some()
+    }
+}
+
+/// thread-local trace of the running accounted total at every allocation
+#[cfg(feature = "verif")]
+pub mod verif_trace {
+    use std::cell::RefCell;
+
+    thread_local! {
+        static TRACE: RefCell<Option<Vec<i64>>> = RefCell::new(None);
+    }
+
+    pub fn start() {
+        TRACE.with(|t| *t.borrow_mut() = Some(Vec::new()));
+    }
+
+    /// positive entries: accounted total right after an allocation;
+    /// negative entries: minus the size returned by a deallocation
+    pub fn take() -> Vec<i64> {
+        TRACE.with(|t| t.borrow_mut().take().unwrap_or_default())
+    }
+
+    pub(crate) fn record_alloc(total: usize) {
+        TRACE.with(|t| {
+            if let Some(v) = t.borrow_mut().as_mut() {
+                v.push(total as i64)
+            }
+        });
+    }
+
+    pub(crate) fn record_dealloc(size: usize) {
+        TRACE.with(|t| {
+            if let Some(v) = t.borrow_mut().as_mut() {
+                v.push(-(size as i64))
+            }
+        });
     }
 }
 
